@@ -129,6 +129,10 @@ DefsOf(attrs) == [n \in { attrs[i].n : i \in DOMAIN attrs } |->
 MergeDefs(defs, attrs) == LET nd == DefsOf(attrs) IN
                           [n \in (DOMAIN defs) \cup (DOMAIN nd) |-> IF n \in DOMAIN nd THEN nd[n] ELSE defs[n]]
 
+AliasFinal(e) == IF e.kind \in {"stale-get", "stale-scan"} THEN e.item2
+                 ELSE IF e.kind = "update-output" THEN e.item @@ [zother |-> Num(1)]
+                 ELSE e.item
+
 Plan(db, e) ==
   LET cl == db[e.c] IN
   IF e.op \in DataOps /\ cl.fail # "none" /\ ~(e.op = "BatchWrite" /\ cl.fail = "internal")
@@ -266,6 +270,14 @@ Plan(db, e) ==
 
     [] e.op = "Transact" -> Ok(db)
 
+    \* C14: a scenario in which the CALLER overwrites its own memory (request structures after the call returned, response
+    \* structures it received); for the database those writes are stuttering steps, so the state after the probe is the
+    \* state its API calls alone produce
+    [] e.op = "AliasProbe" ->
+         IF e.t \notin DOMAIN cl.tables THEN Refuse(db, {"rnf"})
+         ELSE LET tbl == cl.tables[e.t] IN
+              Ok(WithTable(db, e.c, e.t, IF e.kind = "delete-output" THEN DelFrom(tbl, e.item) ELSE PutInto(tbl, AliasFinal(e))))
+
     [] OTHER -> Refuse(db, {"unknown-op"})
 
 \* the state after e with outcome class oc
@@ -386,6 +398,10 @@ RespFails(db, e, r, sdk) ==
                                 /\ IF want[i].put.some THEN SameItem(r.unproc[j].put.i, want[i].put.i)
                                    ELSE SameItem(r.unproc[j].del.k, want[i].del.k)
                        THEN {} ELSE {"Data"}
+               [] e.op = "AliasProbe" /\ oc = "ok" ->
+                    (IF OptItemIs(r.item, IF e.kind = "delete-output" THEN {} ELSE {AliasFinal(e)}) THEN {} ELSE {"Alias"})
+                    \cup (IF e.kind \in {"stale-get", "stale-scan", "delete-output"} /\ ~OptItemIs(r.attrs, {e.item}) THEN {"Alias"} ELSE {})
+                    \cup (IF e.kind = "query-input-struct" /\ r.count # 1 THEN {"Alias"} ELSE {})
                [] e.op = "BatchGet" /\ oc = "ok" ->
                     (IF \A i \in DOMAIN e.reqs :
                           LET rq == e.reqs[i]
